@@ -16,7 +16,7 @@ MANIFEST = {
 META = {
     "modules": ["pkgcore.bugzilla.pkglist"],
     "functions": ["pkglist.PackageList._parse/entries/expand/build", "pkglist.PackageListEntry.with_keywords", "pkglist.parse_atom"],
-    "bounds": {"quick": "2 lines from the part menus (second line fully varied; first line fully varied for three sentinel forms) x 2 suggestion functions", "thorough": "3 lines (second line from a reduced menu)"},
+    "bounds": {"quick": "2 lines from the part menus (second line fully varied; first line fully varied for three sentinel forms) x 2 suggestion functions", "thorough": "plus 3 lines (middle line: first four keyword lists, two comment forms, LF)"},
     "outside": ["lists longer than 3 lines", "invalid package specs (PackageListError by design)"],
     "assumptions": [],
     "selector_only": True,
@@ -90,6 +90,9 @@ class ListHarness(Harness):
         for i in range(n):
             full = i in self.ob["full"]
             d = {"kw": eng.int(f"kw{i}", 0, len(KWS) - 1) if i else self.ob["kw0"], "comment": eng.int(f"cm{i}", 0, len(COMMENT) - 1), "eol": eng.int(f"eol{i}", 0, 1)}
+            if n == 3 and i == 1:
+                # the middle line of a 3-line list comes from a reduced menu
+                d = {"kw": eng.int(f"kw{i}", 0, 3), "comment": eng.int(f"cm{i}", 0, 1), "eol": 0}
             if full:
                 d.update(indent=eng.int(f"in{i}", 0, len(INDENT) - 1), sep=eng.int(f"sp{i}", 0, len(SEP) - 1), trail=eng.int(f"tr{i}", 0, 1), special=eng.int(f"x{i}", 0, len(SPECIAL) - 1))
                 # a blank/comment-only line has no other parts
